@@ -1899,11 +1899,16 @@ void MatrixColumnMinMax(matrix* m, size_t col, double* min, double* max)
   if(m->row > 0 && col < m->col ){
     size_t i;
     double a;
-    (*min) = (*max) = m->data[0][col];
-    for(i = 1; i < m->row; i++){
+    int found = 0;
+    (*min) = (*max) = MISSING;
+    for(i = 0; i < m->row; i++){
       a = m->data[i][col];
       if(FLOAT_EQ(a, MISSING, 1e-1)){
         continue;
+      }
+      else if(found == 0){
+        (*min) = (*max) = a;
+        found = 1;
       }
       else{
         if(a < (*min)){
